@@ -1,5 +1,6 @@
 import Ufo2ftModel.Drv.Util
 import Ufo2ftModel.Spec.C05
+import Ufo2ftModel.Spec.C05Apply
 namespace Ufo2ft.Drv.C05
 open Lean Ufo2ft Ufo2ft.Drv Ufo2ft.C05
 
@@ -11,9 +12,18 @@ def regJ (r : Reg) : Json := Json.arr #[Json.str r.script, strsJ r.languages, st
 def asSL (j : Json) : R (List (String × List String)) := asList (asPair asStr (asList asStr)) j
 def asSS (j : Json) : R (List (String × String)) := asList (asPair asStr asStr) j
 
-/-- op "kern" -/
-def kern (req : Json) : R Reply := do
-  let i ← field req "in"
+structure KernIn where
+  glyphs : List String
+  groups : List (String × List String)
+  kerning : List (String × String × Q)
+  q : Q
+  ignoreMarks : Bool
+  marks : Option (List String)
+  c : Ctx
+  rc : RegCtx
+  todo : List String
+
+def parseIn (i : Json) : R KernIn := do
   let glyphs ← asList asStr (← field i "glyphs")
   let groups ← asSL (← field i "groups")
   let kerningJ ← asArr (← field i "kerning")
@@ -31,7 +41,20 @@ def kern (req : Json) : R Reply := do
   let rc : RegCtx := { dist := ← asList asStr (← field i "distScripts"), otTags := ← asSL (← field i "otTags"),
                        langs := ← asSL (← field i "langs") }
   let todo ← asList asStr (← field i "todo")
-  let p := program c rc glyphs groups kerning q marks ignoreMarks (todo.contains "kern") (todo.contains "dist")
+  return { glyphs, groups, kerning, q, ignoreMarks, marks, c, rc, todo }
+
+def KernIn.program (k : KernIn) : Program :=
+  C05.program k.c k.rc k.glyphs k.groups k.kerning k.q k.marks k.ignoreMarks (k.todo.contains "kern") (k.todo.contains "dist")
+
+/-- op "kern" -/
+def kern (req : Json) : R Reply := do
+  let i ← field req "in"
+  let k ← parseIn i
+  let glyphs := k.glyphs
+  let groups := k.groups
+  let kerning := k.kerning
+  let q := k.q
+  let p := k.program
   let model := Json.mkObj [("lookups", listJ lookupJ p.lookups), ("kern", listJ regJ p.kern), ("dist", listJ regJ p.dist)]
   -- holds on the observed GPOS
   let ind ← field i "indep"
@@ -80,10 +103,43 @@ def agree2 (req : Json) : R Reply := do
   return { model, holds := err.isNone && bad.isEmpty,
            info := Json.arr (bad.map (fun (t, g1, g2) => Json.arr #[Json.str t, Json.str g1, Json.str g2])).toArray }
 
+/-- op "apply": the adjustment table `applyKern` gives on the MODEL's program, for every script tag asked for and every
+    ordered pair of the listed glyphs (zero entries left out) — compared by the harness with what the independent GPOS
+    interpreter reads from the COMPILED font -/
+def apply (req : Json) : R Reply := do
+  let i ← field req "in"
+  let k ← parseIn i
+  let p := k.program
+  let tags ← asList asStr (← field i "applyTags")
+  let names ← asList asStr (← field i "applyGlyphs")
+  let other ← match i.getObjVal? "otherTags" with
+    | .ok j => asList asStr j
+    | .error _ => pure []
+  let table := tags.map (fun t =>
+    Json.arr #[Json.str t, Json.arr (names.flatMap (fun g1 => names.filterMap (fun g2 =>
+      let a := applyKernIn other p t g1 g2
+      if a.1 == 0 && a.2 == 0 then none else some (Json.arr #[Json.str g1, Json.str g2, ratJ a.1, ratJ a.2])))).toArray])
+  -- the hypotheses of the end-to-end theorem, evaluated for every (script, tag, g1, g2): how many triples they cover, and (a
+  -- theorem, so this list is always empty) the triples on which `applyKern` is not the rounded UFO value
+  let scripts := (k.c.glyphScripts.flatMap (·.2)).eraseDups
+  let mut met : Nat := 0
+  let mut bad : List Json := []
+  for s in scripts do
+    for tag in (alookup s k.rc.otTags).getD [] do
+      for g1 in names do
+        for g2 in names do
+          if e2eHyp k.c k.rc k.glyphs k.groups k.kerning k.q k.marks k.ignoreMarks (k.todo.contains "kern") (k.todo.contains "dist") s tag g1 g2 then
+            met := met + 1
+            if applyKern p tag g1 g2 != e2eExpected k.c k.groups k.kerning k.q s g1 g2 then
+              bad := bad ++ [Json.arr #[Json.str s, Json.str tag, Json.str g1, Json.str g2]]
+  return { model := Json.arr table.toArray, holds := true, hyp := Json.bool (met > 0),
+           info := Json.mkObj [("e2e_met", natJ met), ("e2e_bad", Json.arr bad.toArray)] }
+
 def handle (op : String) (req : Json) : R Reply :=
   match op with
   | "kern" => kern req
   | "agree2" => agree2 req
+  | "apply" => apply req
   | _ => throw s!"C05: unknown op {op}"
 
 end Ufo2ft.Drv.C05
